@@ -51,6 +51,17 @@ def IsCand (v : Pe.View) (m lo hi c : Nat) : Prop :=
 instance (v : Pe.View) (m lo hi c : Nat) : Decidable (IsCand v m lo hi c) := by
   unfold IsCand; split <;> infer_instance
 
+/-- the positions `next` may examine at all: inside the range and inside stored bytes (the raw data
+of a section whose raw range lies in the file, mapped or not; any byte of a mapped image) -/
+def IsScanPos (v : Pe.View) (lo hi c : Nat) : Prop :=
+  lo ≤ c ∧ c < hi ∧
+  match v.kind with
+  | .view => c < v.b.size
+  | .file => ∃ s ∈ v.secs, s.va ≤ c ∧ c < s.va + s.rs ∧ s.prd + s.rs ≤ v.b.size
+
+instance (v : Pe.View) (lo hi c : Nat) : Decidable (IsScanPos v lo hi c) := by
+  unfold IsScanPos; split <;> infer_instance
+
 /-- the candidates in ascending order (for `SecWF` tables) -/
 def candidates (v : Pe.View) (m lo hi : Nat) : List Nat :=
   match v.kind with
